@@ -36,7 +36,7 @@ ASSUMPTIONS = [
     "containment of a child in its parent is three-valued: deviation <= tolerance holds, > 2 x tolerance fails, in between is counted as undecided (both polygons went through buffer(+-tolerance) smoothing in the parser)",
     "lane-level successor/predecessor reciprocity is decided only where the map declares both directions (OpenDRIVE lane links may be one-sided; the parser transcribes them)",
     "an incoming lane whose connecting lane has no successor lane (the parser warns about the map) legitimately carries a dummy STRAIGHT maneuver outside intersection.maneuvers",
-    "tangency is decided only for points whose nearest centreline point is strictly inside one segment (0.02 < t < 0.98) and >= 1 mm closer than any other segment; roadDirection only for lanes of ordinary roads where exactly one lane, exactly one road and no intersection is within tolerance",
+    "tangency is decided only for points whose nearest centreline point is strictly inside one segment (0.02 < t < 0.98) and >= 1 mm closer than any other segment; roadDirection only for lanes of ordinary roads where exactly one lane, exactly one road and no intersection or shoulder is within tolerance",
     "lookup completeness is undecided for elements between 0.995 x tolerance and tolerance (the real tolerant pass intersects a polygonal approximation of the disc)",
     "the canonical dump covers every attribute in the elements' and network's __dict__ except region caches, the R-tree and the weak back-reference to the network",
 ]
